@@ -177,11 +177,8 @@ def step (s : S) (line : String) : S × String :=
       | some n =>
         match (s.op n).id, (s.op n).src with
         | some id, some (slot, off, size) =>
-          match s.f.w.readAt slot off size with
-          | some o =>
-            match Full.copy s.f id o.data with
-            | some f => ({ s with f := f }, s!"ok {o.data}")
-            | none => (s, "bad-op")
+          match Full.refreshCopy s.f id slot off size with
+          | some (d, f) => ({ s with f := f }, s!"ok {d}")
           | none => (s, "garbage")
         | _, _ => (s, "bad-op")
       | none => (s, "bad-op")
